@@ -295,11 +295,12 @@ def judge(chk, jobs, tag):
 PANIC = re.compile(r"panicked at ([^\n]+?):(\d+):(\d+):\n([^\n]*)")
 
 
-def msg_class(msg):
+def msg_class(msg, n=40):
+    msg = re.sub(r"\bin_\d+\.\w+", "<input>", msg)
     msg = re.sub(r"0x[0-9a-fA-F]+|\d+", "N", msg)
     msg = re.sub(r"'[^']*'|\"[^\"]*\"|`[^`]*`", "_", msg)
     msg = re.sub(r"\s+", " ", msg).strip()
-    return msg[:40]
+    return msg[:n]
 
 
 def norm_site(path):
@@ -347,6 +348,28 @@ def finding_key(job, reason, runner=None):
             ctx = job.gen.get("label", job.gen.get("defect", job.gen["class"]))
             ctx = re.sub(r"\d+", "N", ctx)
         return "%s:%s:%s" % (reason, tv, ctx)
+    name = "in_%06d.%s" % (job.jid, job.ext) if job.jid else None
+    if reason == "ErrorDoesNotNameFile":
+        # the first error line that does not name the input; its class is cut at the first quoted
+        # thing (usually a path derived from file contents), e.g. `error: while writing _`
+        pick = ""
+        for l in lines:
+            if l.startswith("error") and not (name and name in l):
+                pick = l
+                break
+        cls = msg_class(pick, 80)
+        if "_" in cls:
+            cls = cls[:cls.index("_") + 1]
+        return "%s:%s:%s" % (reason, tv, cls)
+    if reason == "FailureWithoutDiagnostic":
+        # the last thing said before failing
+        pick = ""
+        for l in lines:
+            if l.startswith("warning"):
+                pick = l
+        if not pick and lines:
+            pick = lines[-1]
+        return "%s:%s:%s" % (reason, tv, msg_class(pick, 80))
     first = ""
     for l in lines:
         if l.startswith("error"):
@@ -551,8 +574,15 @@ def rekey_findings(pid):
             m = PANIC_KEY.match(key)
             if m:
                 e["site_fn"] = enclosing_fn(m.group(1), int(m.group(2))) or e.get("site_fn")
+    seen, out = set(), []
+    for e in sorted(cur, key=lambda e: (e["key"], len(e.get("job", {}).get("input_b64", "")))):
+        if e["key"] in seen:
+            print("duplicate after rekey, dropped:", e["key"])
+            continue
+        seen.add(e["key"])
+        out.append(e)
     with open(fd, "w") as f:
-        json.dump(cur, f, indent=1, ensure_ascii=False)
+        json.dump(out, f, indent=1, ensure_ascii=False)
         f.write("\n")
 
 
